@@ -184,7 +184,7 @@ def gen_cases(rng, n):
         r = rng.random()
         if r < 0.55:
             k = kinds[i % 4]
-            cases.append({"fam": "gantt", "kind": k, "seq": gen_seq(rng, states_for(k)), "m": rng.choice(MARGINS)})
+            cases.append({"fam": "gantt", "kind": k, "seq": gen_seq(rng, states_for(k)), "m": rng.choice(MARGINS), "int_logs": rng.random() < 0.15})
         elif r < 0.70:
             k = rng.choice(["task", "component"])
             cases.append({"fam": "rows2", "kind": k, "seq": gen_seq(rng, states_for(k)), "m": rng.choice(MARGINS),
@@ -214,7 +214,7 @@ def gen_cases(rng, n):
                     mid = [rng.randrange(lo, hi + 1) for _ in range(rng.choice([1, 2, 3]))]
                     times = [lo] + mid + [hi]
                     rng.shuffle(times)
-            cases.append({"fam": "extract", "kind": k, "logs": logs, "target": target, "times": times})
+            cases.append({"fam": "extract", "kind": k, "logs": logs, "target": target, "times": times, "int_logs": rng.random() < 0.15})
         else:
             cases.append({"fam": "last", "last": rng.randrange(0, 10 ** 9), "unit": rng.choice([1, 60, 3600, 86400, 7]),
                           "time": rng.randrange(0, 500)})
@@ -236,9 +236,20 @@ def exhaustive_cases(maxlen):
 
 
 # --------------------------------------------------------------- execution
+class _IntLogs(dict):
+    """the library under test with the five state enumerations replaced by `int`: a log restored from
+    plain numbers (IntEnum members compare equal to their values)"""
+    def __getitem__(self, k):
+        if k in ("BaseTaskState", "BaseComponentState", "BaseWorkerState", "BaseFacilityState"):
+            return int
+        return dict.__getitem__(self, k)
+
+
 def run_case(P, c):
     """returns (impl_result, oracle_result)"""
     f = c["fam"]
+    if c.get("int_logs"):
+        P = _IntLogs(P)
     if f == "gantt":
         return impl_gantt(P, c["kind"], c["seq"], c["m"]), oracle_gantt(c["kind"], c["seq"], c["m"])
     if f == "rows2":
